@@ -396,7 +396,7 @@ def tlbwr():
 def tlbr():
     "TODO XXX"
 
-def break_(ir, instr):
+def break_(ir, instr, code):
     e = []
     e.append(m2_expr.ExprAssign(exception_flags, m2_expr.ExprInt(EXCEPT_SOFT_BP, 32)))
     return e, []
